@@ -7,6 +7,7 @@ import (
 	"path/filepath"
 	"runtime"
 	"sync"
+	"sync/atomic"
 	"testing"
 	"time"
 
@@ -540,5 +541,114 @@ func TestC06(t *testing.T) {
 		}
 		c06Free(r, caseID, g, cfg)
 	})
-	finish(t, r, r.N(25, 60), "free/*", "rewind/replace*", "rewind/none*", "fork/replaces-served*")
+	// labelled schedule class: the detector's Start runs in its own goroutine WHILE the syncer
+	// subscribes (exactly what cmd/run.go does: `go reorgDetector.Start(ctx)` followed by the syncers'
+	// constructors). The node must come up and converge on a static chain.
+	nConc := r.N(160, 1200)
+	var concStarted atomic.Int64
+	parallel(nConc, workers, func(i int) {
+		caseID := fmt.Sprintf("concurrent-start/%d", i)
+		if !r.Only(caseID) {
+			return
+		}
+		g := rng(r, "concstart", i)
+		scen := map[string]any{"mode": "detector Start concurrent with the syncer's Subscribe (cmd/run.go order)"}
+		guard(r, caseID, scen, func() {
+			ch := fakes.NewChain(1)
+			lg := newL1ChainGen(g, 60, true)
+			lg.adopt(ch.MineFn(6+g.Intn(6), lg.gen))
+			ch.SetFinalized(2)
+			dir := scratchDir("c06conc")
+			ctx, cancel := context.WithCancel(context.Background())
+			defer cancel()
+			cl := ch.Client()
+			rd, err := newDetector(cl, dir)
+			if err != nil {
+				r.Inconclusive("detector: " + err.Error())
+				return
+			}
+			if i%2 == 1 {
+				// second start of the same node: tracked rows already exist in the detector's database
+				sub, _ := rd.Subscribe("l1infotreesync")
+				_ = sub
+				_ = rd.AddBlockToTrack(ctx, "l1infotreesync", 3, ch.Canonical()[3].Hash())
+				// ... and many rows of another (finalized, hence harmless) block, as a node has after
+				// running for a while with a large non-finalized window: loading them takes Start a few ms
+				rows := 3000 + g.Intn(20000)
+				if tx, err := rd.VerifDB().Begin(); err == nil {
+					h1 := ch.Canonical()[1].Hash().Hex()
+					for k := 0; k < rows; k++ {
+						_, _ = tx.Exec(`INSERT INTO tracked_block (subscriber_id, num, hash) VALUES ('bridgesync', 1, $1)`, h1)
+					}
+					_ = tx.Commit()
+				}
+				scen["tracked_rows_in_db"] = rows
+				_ = rd.VerifDB().Close()
+				if rd, err = newDetector(cl, dir); err != nil {
+					r.Inconclusive("detector: " + err.Error())
+					return
+				}
+			}
+			type res struct {
+				s   *l1infotreesync.L1InfoTreeSync
+				err error
+			}
+			up := make(chan res, 1)
+			started := make(chan error, 1)
+			go func() { started <- rd.Start(ctx) }()
+			go func() {
+				s, err := newL1Syncer(ctx, filepath.Join(dir, "l1.sqlite"), rd, cl, 10, aggkittypes.LatestBlock, 0)
+				up <- res{s, err}
+			}()
+			var node res
+			select {
+			case node = <-up:
+			case <-time.After(20 * time.Second):
+				r.Violation("C06:store-does-not-converge-to-canonical-chain:node-start-deadlocks:detector-start-concurrent-with-subscribe", caseID,
+					"the detector's Start and the syncer's Subscribe ran concurrently (as in cmd/run.go) and 20 s later the syncer's constructor has not returned: the node never starts syncing", scen)
+				return
+			}
+			if node.err != nil {
+				r.Inconclusive("syncer: " + node.err.Error())
+				return
+			}
+			select {
+			case err := <-started:
+				if err != nil {
+					r.Inconclusive("detector start: " + err.Error())
+					return
+				}
+			case <-time.After(20 * time.Second):
+				r.Violation("C06:store-does-not-converge-to-canonical-chain:node-start-deadlocks:detector-start-concurrent-with-subscribe", caseID,
+					"the detector's Start ran concurrently with the syncer's Subscribe and has not returned after 20 s", scen)
+				return
+			}
+			done := make(chan struct{})
+			go func() { node.s.Start(ctx); close(done) }()
+			rf := lg.refOf(ch.Canonical())
+			diff := ""
+			for w := 0; w < 5000; w++ {
+				if diff = l1StoreMatches(node.s, rf); diff == "" {
+					break
+				}
+				time.Sleep(2 * time.Millisecond)
+			}
+			cancel()
+			cl.Kill()
+			select {
+			case <-done:
+			case <-time.After(20 * time.Second):
+			}
+			_ = node.s.VerifDB().Close()
+			_ = rd.VerifDB().Close()
+			if diff != "" {
+				r.Violation("C06:store-does-not-converge-to-canonical-chain:after-concurrent-start", caseID, diff, scen)
+				return
+			}
+			concStarted.Add(1)
+			r.Eval(fmt.Sprintf("concurrent-start/tracked-rows-in-db=%v", i%2 == 1))
+		})
+	})
+	r.Set("concurrent_starts_that_converged", int(concStarted.Load()))
+	finish(t, r, r.N(25, 60), "free/*", "rewind/replace*", "rewind/none*", "fork/replaces-served*", "concurrent-start/*")
 }
